@@ -746,7 +746,14 @@ void Analyser::AnalyserImpl::analyseNode(const XmlNodePtr &node,
         auto childCount = mathmlChildCount(node);
 
         analyseNode(mathmlChildNode(node, 0), ast, astParent, component, equation);
-        analyseNode(mathmlChildNode(node, 1), ast->mPimpl->mOwnedLeftChild, ast, component, equation);
+
+        // Note: an apply element may consist of one element only (e.g.,
+        //       <apply><ci>a</ci></apply>), in which case it stands for that
+        //       element.
+
+        if (childCount >= 2) {
+            analyseNode(mathmlChildNode(node, 1), ast->mPimpl->mOwnedLeftChild, ast, component, equation);
+        }
 
         if (childCount >= 3) {
             AnalyserEquationAstPtr astRightChild;
@@ -947,7 +954,11 @@ void Analyser::AnalyserImpl::analyseNode(const XmlNodePtr &node,
 
         ast->mPimpl->populate(AnalyserEquationAst::Type::PIECEWISE, astParent);
 
-        analyseNode(mathmlChildNode(node, 0), ast->mPimpl->mOwnedLeftChild, ast, component, equation);
+        // Note: a piecewise element may be empty.
+
+        if (childCount >= 1) {
+            analyseNode(mathmlChildNode(node, 0), ast->mPimpl->mOwnedLeftChild, ast, component, equation);
+        }
 
         if (childCount >= 2) {
             AnalyserEquationAstPtr astRight;
